@@ -72,9 +72,14 @@ struct WireSnk {
 
 // ------------------------------------------------------------------ allocator ledger
 // the C library's malloc underneath the library's stock heap allocator fails on demand (-Wl,--wrap=malloc)
-extern "C" void *__real_malloc(size_t);
+extern "C" void *__real_malloc(size_t); extern "C" void __real_free(void *);
 static bool g_fail_next_malloc = false;
-extern "C" void *__wrap_malloc(size_t n) { if (g_fail_next_malloc) { g_fail_next_malloc = false; return nullptr; } return __real_malloc(n); }
+// an instance that keeps the library's own rp_default_allocator object: its blocks come straight from the C library's heap, so the ledger
+// watches malloc() / free() themselves (-Wl,--wrap=malloc,--wrap=free); nothing else in this process calls the wrapped symbols while it does
+struct Ledger; static Ledger *g_heap_led = nullptr; static bool g_defalloc_next = false;
+static void *heap_ledger_alloc(size_t n); static void heap_ledger_free(void *m);
+extern "C" void *__wrap_malloc(size_t n) { if (g_fail_next_malloc) { g_fail_next_malloc = false; return nullptr; } if (g_heap_led) return heap_ledger_alloc(n); return __real_malloc(n); }
+extern "C" void __wrap_free(void *m) { if (g_heap_led) { heap_ledger_free(m); return; } __real_free(m); }
 static bool g_stock_heap = false;   // blocks come from ufw_malloc() / go back through ufw_mfree() (the stock heap allocator's functions) instead of straight from malloc
 static int g_block_fill = 0xbe, g_block_scrub = -1;   // what fresh blocks contain (pool in erased RAM: 0xff, zeroed pool: 0x00, ...) and whether the pool scrubs returned blocks
 struct Ledger {
@@ -100,7 +105,7 @@ struct Ledger {
         if (fail.next(s) && s != 0) { *m = nullptr; ++failed; c->faults_fired++; COUNT("fault.allocation_failure"); c->ev(EV_ALLOC, 0, 0, allocs); return -ENOMEM; }
         void *p;
         if (recycle && !pool.empty()) { p = pool.back(); pool.pop_back(); ASAN_UNPOISON_MEMORY_REGION(p, bs); COUNT("probe.block_recycled_with_stale_content"); }
-        else { p = malloc(bs); memset(p, g_block_fill, bs); }
+        else { p = __real_malloc(bs); memset(p, g_block_fill, bs); }
         live[(uintptr_t)p] = allocs++;
         *m = p; c->ev(EV_ALLOC, 1, bs, allocs);
         return 0;
@@ -112,11 +117,27 @@ struct Ledger {
         live.erase(it); ++frees;
         if (g_stock_heap) { ufw_mfree(nullptr, m); return; }
         if (recycle) { if (g_block_scrub >= 0) memset(m, g_block_scrub, bs); ASAN_POISON_MEMORY_REGION(m, bs); pool.push_back(m); }   // use-after-free stays visible to ASan while the block waits in the pool
-        else free(m);
+        else __real_free(m);
+    }
+    // the heap itself as seen underneath rp_default_allocator (ufw_malloc / ufw_mfree call malloc / free)
+    void *heap_alloc(size_t n) {
+        c->step_budget();
+        int64_t s = 0;
+        if (fail.next(s) && s != 0) { ++failed; c->faults_fired++; COUNT("fault.allocation_failure"); COUNT("probe.malloc_failed_underneath_default_allocator"); c->ev(EV_ALLOC, 3, 0, allocs); return nullptr; }
+        if (n != bs) c->fail("heap.blocksize", "the default allocator asked the heap for %zu octets, its block size is %zu", n, bs);
+        void *q = __real_malloc(n < bs ? bs : n); memset(q, g_block_fill, n < bs ? bs : n);
+        live[(uintptr_t)q] = allocs++; c->ev(EV_ALLOC, 4, n, allocs);
+        return q;
+    }
+    void heap_free(void *m) {
+        auto it = live.find((uintptr_t)m);
+        c->ev(EV_FREE, it != live.end(), 1, frees);
+        if (it == live.end()) { ++unknown_free; return; }
+        live.erase(it); ++frees; __real_free(m);
     }
     // room behind a pointer inside a live block, 0 if it is not inside one
     size_t room(const void *p) const { uintptr_t x = (uintptr_t)p; for (auto &kv : live) if (x >= kv.first && x <= kv.first + bs) return kv.first + bs - x; return 0; }
-    void release_all() { for (auto &kv : live) free((void *)kv.first); live.clear(); for (void *p : pool) { ASAN_UNPOISON_MEMORY_REGION(p, bs); free(p); } pool.clear(); }
+    void release_all() { for (auto &kv : live) __real_free((void *)kv.first); live.clear(); for (void *p : pool) { ASAN_UNPOISON_MEMORY_REGION(p, bs); __real_free(p); } pool.clear(); }
     static int generic_cb(void *d, void **m, size_t) { return ((Ledger *)d)->do_alloc(m); }
     static int slab_cb(void *d, void **m) { return ((Ledger *)d)->do_alloc(m); }
     static void free_cb(void *d, void *m) { ((Ledger *)d)->do_free(m); }
@@ -128,6 +149,9 @@ struct Ledger {
         a.free = free_cb; return a;
     }
 };
+
+static void *heap_ledger_alloc(size_t n) { return g_heap_led->heap_alloc(n); }
+static void heap_ledger_free(void *m) { g_heap_led->heap_free(m); }
 
 // ------------------------------------------------------------------ scripted-verdict memory backend
 struct BeCall { bool write; uint32_t addr; size_t n; Bytes data; size_t room; };
@@ -173,10 +197,13 @@ struct Node {
     Ctx &c; RegP p; Wire *in, *out; WireSrc src; WireSnk snk; Ledger led; BlockAllocator ba; Backend be;
     bool serial; int mt;
     RPMaybeFrame mf;   // one object reused for every iteration of the serve loop, as an application would
+    bool defalloc = false;   // no allocator is ever attached: the instance keeps &rp_default_allocator from regp_init() / RP_NEW_INSTANCE and the ledger watches the heap
     bool nomem = false;   // no memory is ever attached: the instance keeps what regp_init() / RP_NEW_INSTANCE give it (16-bit semantics, every access unmapped)
     Node(Ctx &ctx, Wire *i, Wire *o, bool ser, int memtype, size_t block, bool slab, bool src_octet, bool snk_octet, bool no_memory = false) : c(ctx), in(i), out(o), serial(ser), mt(memtype), nomem(no_memory && memtype == 16) {
         src.c = &ctx; src.w = i; src.octet = src_octet; snk.c = &ctx; snk.w = o; snk.octet = snk_octet;
         src.lend_win = g_lend; if (g_lend) COUNT("probe.channel_source_lends_its_window");
+        defalloc = g_defalloc_next; g_defalloc_next = false;
+        if (defalloc) { block = (size_t)RP_DEFAULT_BUFFER_SIZE; slab = false; g_heap_led = &led; COUNT("probe.instance_keeps_rp_default_allocator"); }
         led.c = &ctx; led.bs = block; led.slab = slab; ba = led.make();
         be.c = &ctx; be.led = &led; be.ws = memtype == 16 ? 2 : 1;
         memset(&mf, 0, sizeof mf);
@@ -193,9 +220,10 @@ struct Node {
         if (nomem) COUNT("probe.instance_without_memory_attached"); else if (mt == 16) regp_use_memory16(&p, be_r16, be_w16); else regp_use_memory8(&p, be_r8, be_w8);
         regp_use_channel(&p, serial ? RP_EP_SERIAL : RP_EP_TCP, src.make(), snk.make());
         ba.driver = &led;
-        regp_use_allocator(&p, &ba);
+        if (!defalloc) regp_use_allocator(&p, &ba);
+        else if (history & 8) { regp_use_allocator(&p, &ba); regp_use_allocator(&p, &rp_default_allocator); }   // away and back
     }
-    ~Node() { led.release_all(); }
+    ~Node() { if (g_heap_led == &led) g_heap_led = nullptr; led.release_all(); }
     size_t bufsize() const { return led.bs - sizeof(RPFrame); }
 };
 
@@ -374,7 +402,7 @@ struct RegpHarness : Harness {
         else if (p == "C07") for (const char *s : {"frame_of_64k_octets_or_more", "damage_beyond_64k_words", "idle_turn_after_a_frame", "reply_could_not_be_sent", "flip1", "flip2", "burst", "truncate", "extend", "header_word_flip", "class_header_encoding", "class_header_crc", "class_payload_size", "class_payload_crc", "raw_accept", "raw_tcp", "option_plcrc_without_hdcrc", "odd_payload_ws16", "payload_fault_answered_with_error_response", "classified_from_fallback_buffer"}) v.push_back(s);
         else if (p == "C08") { for (const char *s : {"earlier_instance_received_line_noise", "instance_without_memory_attached", "payload_of_64k_octets_or_more", "emitter_sink_failed", "channel_attached_again_mid_session", "req_read8", "req_read16", "req_write8", "req_write16", "resp_ack_payload", "resp_ack_empty", "resp_meta", "payload_with_slip_control_octets", "varint_prefix_2_octets", "sequence_wrap", "roundtrip_accepted"}) v.push_back(s);
             for (int k = 1; k < 12; ++k) v.push_back("resp_code_" + std::to_string(k)); }
-        else for (const char *s : {"earlier_instance_received_line_noise", "frame_released_through_block_free", "frame_of_64k_octets_or_more", "reply_could_not_be_sent", "malloc_failed_underneath_ufw_malloc", "alloc_failure_with_parsable_header", "alloc_failure_without_parsable_header", "empty_frame", "short_frame", "frame_len_room_minus_1", "frame_len_room", "frame_len_room_plus_1", "rx_overflow", "read_at_limit_minus_1", "read_at_limit", "read_at_limit_plus_1", "tx_overflow", "channel_error_mid_frame", "odd_payload_ws16", "slab_allocator", "block_size_minimum", "served_after_fault", "illegal_slip_sequence_on_the_wire"}) v.push_back(s);
+        else for (const char *s : {"earlier_instance_received_line_noise", "frame_released_through_block_free", "instance_keeps_rp_default_allocator", "malloc_failed_underneath_default_allocator", "frame_of_64k_octets_or_more", "reply_could_not_be_sent", "malloc_failed_underneath_ufw_malloc", "alloc_failure_with_parsable_header", "alloc_failure_without_parsable_header", "empty_frame", "short_frame", "frame_len_room_minus_1", "frame_len_room", "frame_len_room_plus_1", "rx_overflow", "read_at_limit_minus_1", "read_at_limit", "read_at_limit_plus_1", "tx_overflow", "channel_error_mid_frame", "odd_payload_ws16", "slab_allocator", "block_size_minimum", "served_after_fault", "illegal_slip_sequence_on_the_wire"}) v.push_back(s);
         return v;
     }
     Json describe(const std::string &p) const override {
@@ -453,6 +481,7 @@ struct RegpHarness : Harness {
         if (prop == "C06" && block < (int64_t)minblock + 40) block = (int64_t)minblock + 40 + r.range(0, 60);
         const bool bigblock = (prop == "C09" || prop == "C06") && r.chance(1, 150);   // rarely a block around / above 64 KiB (sizes and counts that do not fit 16 bits)
         if (bigblock) { static const int64_t BB[] = {65535, 65536, 65537, 65552, 70000, 131072, 131080, 196700}; block = (int64_t)sizeof(RPFrame) + BB[r.below(8)]; }
+        if (prop == "C09" && r.chance(1, 6)) { p["defalloc"] = 1; block = (int64_t)RP_DEFAULT_BUFFER_SIZE; }   // the served instance keeps the library's rp_default_allocator object
         p["block"] = (long long)block; if (r.chance(1, 3)) p["macro_init"] = 1;
         if (r.chance(1, 4)) { Json ij = Json::arr(); ij.push((long long)(r.chance(1, 2) ? r.below(8) : r.below(200))); ij.push((long long)r.below(1 << 20)); p["intrude"] = ij; }
         if (r.chance(1, 5)) { Json ij = Json::arr(); ij.push((long long)(r.chance(1, 2) ? r.below(8) : r.below(120))); ij.push((long long)r.below(1 << 20)); p["sintrude"] = ij; }   // a second instance serves a request while the first waits in its source
@@ -608,10 +637,10 @@ struct RegpHarness : Harness {
     }
 
     // ------------------------------------------------------------ execution
-    struct Cfg { bool serial; int mt; size_t block; bool slab, so, ko; uint16_t seq0; bool recycle; unsigned confhist; };
+    struct Cfg { bool serial; int mt; size_t block; bool slab, so, ko; uint16_t seq0; bool recycle; unsigned confhist; bool defalloc; };
     static Cfg cfg_of(const Json &plan) {
         g_macro_init = plan.geti("macro_init") != 0; g_bind_with_macros = false; g_free_via_block = plan.geti("bfree") != 0;
-        g_stock_heap = plan.geti("stock_heap") != 0 && plan.geti("recycle") == 0; g_fail_next_malloc = false;
+        g_stock_heap = plan.geti("stock_heap") != 0 && plan.geti("recycle") == 0 && plan.geti("defalloc") == 0; g_fail_next_malloc = false; g_heap_led = nullptr; g_defalloc_next = false;
         g_snk_calls = 0; g_snk_intruder = nullptr; g_snk_intrude_at = -1; g_src_calls = 0; g_src_intruder = nullptr; g_src_intrude_at = -1;
         if (plan.has("sintrude")) { const Json &ij = plan.get("sintrude"); g_src_intrude_at = ij.ati(0, 0); if (g_src_intrude_at < 0 || g_src_intrude_at > 100000) g_src_intrude_at = 0; g_src_intrude_arg = ij.ati(1, 0) & 0xfffff; g_src_intruder = second_instance_serves; }
         if (plan.has("intrude")) { const Json &ij = plan.get("intrude"); g_snk_intrude_at = ij.ati(0, 0); if (g_snk_intrude_at < 0 || g_snk_intrude_at > 100000) g_snk_intrude_at = 0; g_snk_intrude_arg = ij.ati(1, 0) & 0xfffff; g_snk_intruder = second_instance_emits; }
@@ -621,6 +650,7 @@ struct RegpHarness : Harness {
         Cfg c; c.serial = plan.geti("serial") != 0; c.mt = plan.geti("mt", 16) == 8 ? 8 : 16;
         int64_t b = plan.geti("block", 128); if (b < (int64_t)sizeof(RPFrame) + 1) b = (int64_t)sizeof(RPFrame) + 1; if (b > 400000) b = 400000; c.block = (size_t)b;
         c.slab = plan.geti("slab") != 0; c.so = plan.geti("src_octet") != 0; c.ko = plan.geti("snk_octet") != 0; c.seq0 = (uint16_t)plan.geti("seq0"); c.recycle = plan.geti("recycle") != 0; c.confhist = (unsigned)(plan.geti("confhist") & 15);
+        c.defalloc = plan.geti("defalloc") != 0; if (c.defalloc) { c.block = (size_t)RP_DEFAULT_BUFFER_SIZE; c.slab = false; c.recycle = false; }
         return c;
     }
     static void load_frag(WireSrc &s, const Json &plan) { Json j = Json::arr(); const Json &f = plan.get("frag"); for (size_t i = 0; i < f.size(); ++i) { int64_t v = f.ati(i, 1); j.push((long long)(v < 1 ? 1 : v)); } s.frag.load(j); }
@@ -1083,6 +1113,7 @@ struct RegpHarness : Harness {
         Cfg cf = cfg_of(plan);
         earlier_instance(c, plan); if (!c.viol.empty()) return;
         Wire c2s, s2c;
+        g_defalloc_next = cf.defalloc;
         Node srv(c, &c2s, &s2c, cf.serial, cf.mt, cf.block, cf.slab, cf.so, cf.ko);
         srv.led.recycle = cf.recycle; srv.reconfigure(cf.confhist);
         load_frag(srv.src, plan);
